@@ -48,6 +48,7 @@ structure Stanza where
   id : Nat
   resp : Bool
   ns : Ns := .stream
+  bad : Bool := false    -- reading its content fails half way (malformed or truncated input, a rejected token)
   deriving DecidableEq, Repr, Inhabited
 
 /-- `readerChan.stanzaName == start.Name || readerChan.stanzaName == xml.Name{Local: start.Name.Local}`
@@ -104,6 +105,8 @@ def init : St :=
 inductive Act
   | call (i : Nat) | sendOk (i : Nat) | sendFail (i : Nat) | cancel (i : Nat)
   | recv (i : Nat) | timeout (i : Nat) | dereg (i : Nat) | close (i : Nat)
+  | readErr (i : Nat)       -- the caller reads the response it holds and hits the error in its content:
+                            -- the response closes itself (errCloser), the caller's own Close is then a no-op
   | read (st : Stanza) | abandon
   | closeOut                -- the application closes the output stream
   deriving DecidableEq, Repr
@@ -156,8 +159,23 @@ def step (cfg : Cfg) (s : St) : Act → Option St
   | .close i =>
     match s.rpc i with
     | .done (.reply k) false =>
+      -- the serve loop discards the rest of the element; if that cannot be read `Serve` returns the error
+      let isBad := match s.hist[k]? with | some st => st.bad | none => false
       some { s with rpc := upd s.rpc i (.done (.reply k) true),
-                    spc := if s.spc = .waitClose i k then .idle else s.spc }
+                    spc := if s.spc = .waitClose i k then (if isBad then .dead else .idle) else s.spc,
+                    outClosed := s.outClosed || (isBad && s.spc == .waitClose i k) }
+    | _ => none
+  | .readErr i =>
+    match s.rpc i with
+    | .done (.reply k) false =>
+      match s.hist[k]? with
+      | some st =>
+        if st.bad then
+          some { s with rpc := upd s.rpc i (.done (.reply k) true),
+                        spc := if s.spc = .waitClose i k then .dead else s.spc,
+                        outClosed := s.outClosed || s.spc == .waitClose i k }
+        else none
+      | none => none
     | _ => none
   | .read st =>
     match s.spc with
@@ -168,13 +186,19 @@ def step (cfg : Cfg) (s : St) : Act → Option St
       | none =>
         -- the handler sees it; if the serve loop then has to write its own reply on an output
         -- that cannot take it, `Serve` returns that error (and closes the output)
-        if autoReply st && (s.broken || s.outClosed) then
+        -- (the same when the rest of the element cannot be read: discarding it fails)
+        if st.bad || (autoReply st && (s.broken || s.outClosed)) then
           some { s with hist := s.hist ++ [st], hlog := k :: s.hlog, spc := .dead, outClosed := true }
         else some { s with hist := s.hist ++ [st], hlog := k :: s.hlog }
     | _ => none
   | .abandon =>
     match s.spc with
-    | .offering j k => if ctxDone cfg s j then some { s with spc := .idle, dropped := k :: s.dropped } else none
+    | .offering j k =>
+      if ctxDone cfg s j then
+        let isBad := match s.hist[k]? with | some st => st.bad | none => false
+        some { s with spc := if isBad then .dead else .idle, dropped := k :: s.dropped,
+                      outClosed := s.outClosed || isBad }
+      else none
     | _ => none
   | .closeOut => some { s with outClosed := true }
 
